@@ -55,7 +55,11 @@ def props_create(rep):
             fid = fc[0][3]
             vals.append(all(e[1] == fid for e in aw))
             vals.append(any(e[0] == 'H5Fclose' and e[1] == fid for e in ex.events))
-            vals.append(fc[0][1].is_concrete() and fc[0][1].text() == '/data/ch/drf_properties.h5' and fc[0][2] == 4)
+            nm_ = fc[0][1].text() if fc[0][1].is_concrete() else ''
+            ren = [e for e in ex.events if e[0] == 'rename']
+            # either created directly (exclusive) under the final name, or staged under tmp. and renamed into place after the close
+            vals.append((nm_ == '/data/ch/drf_properties.h5' and fc[0][2] == 4) or
+                        (nm_ == '/data/ch/tmp.drf_properties.h5' and len(ren) == 1 and ren[0][1].text() == nm_ and ren[0][2].text() == '/data/ch/drf_properties.h5'))
         res.append((ok, ok_names, all(vals) if vals else False, names))
 
     ex = Exec(mod, stubs)
